@@ -32,7 +32,7 @@ BOOLS = {
 SCALARS = {
     # dest: (default, flag, [(text on cmdline / in file, expected attribute value)])
     "junit_directory": ("reports", "--junit-directory", [("out/junit", "out/junit"), ("rep2", "rep2")]),
-    "jobs": (1, "--jobs", [("3", 3), ("7", 7)]),
+    "jobs": (1, "--jobs", [("3", 3), ("7", 7), ("0", 0), ("1", 1)]),      # (0 is a legal number of jobs: "positive" means not negative here)
     "logging_level": (logging.INFO, "--logging-level", [("DEBUG", logging.DEBUG), ("ERROR", logging.ERROR), ("warning", logging.WARNING)]),
     "logging_format": ("%(levelname)s:%(name)s:%(message)s", "--logging-format", [("%(name)s:%(message)s", "%(name)s:%(message)s"), ("LOG %(levelname)s", "LOG %(levelname)s")]),
     "logging_datefmt": (None, "--logging-datefmt", [("%H:%M", "%H:%M"), ("%Y", "%Y")]),
@@ -71,7 +71,7 @@ REQUIRED = {"precedence.attribute": {"quick": 20000, "thorough": 1500000}, "bool
             "paths.relative_to_config_file": {"quick": 150, "thorough": 8000}, "list.order": {"quick": 400, "thorough": 20000},
             "userdata.define_parsing": {"quick": 2000, "thorough": 100000}, "userdata.cmdline_overrides_file": {"quick": 300, "thorough": 15000},
             "userdata.getters": {"quick": 1500, "thorough": 60000}, "userdata.namespace_view": {"quick": 500, "thorough": 20000}, "couplings.documented": {"quick": 100, "thorough": 4000}}
-REQUIRED_SEEN = {"namespace_name_shape": ["name_starts_with_namespace_text"], "config_file_kind": ["behave.ini", ".behaverc", "setup.cfg", "tox.ini", "pyproject.toml"],
+REQUIRED_SEEN = {"define_value_shape": ["different_quote_characters_at_the_ends"], "namespace_name_shape": ["name_starts_with_namespace_text"], "config_file_kind": ["behave.ini", ".behaverc", "setup.cfg", "tox.ini", "pyproject.toml"],
                  "config_file_place": ["cwd", "home"], "source_deciding": ["cmdline", "file", "default"]}
 EXHAUSTIVE = True
 EXHAUSTIVE_SCOPE = "all (file value in {absent,true,false}) x (command-line flag in {absent,positive,negative}) pairs for every boolean option"
@@ -374,7 +374,9 @@ def bool_pairs(mon, sc, shard, of):
 def userdata_cases(mon, sc, rng, n):
     from behave.userdata import parse_user_define, UserData
     names = ["foo", "person.name", "a_b", "x1", "Ünï"]
-    values = ["bar", "Alice and Bob", "42", "3.5", "true", "a=b", "", "x y  z", "it's", 'say "hi"', "=", "1e3", "off", " padded "]
+    values = ["bar", "Alice and Bob", "42", "3.5", "true", "a=b", "", "x y  z", "it's", 'say "hi"', "=", "1e3", "off", " padded ",
+              # one quote character at each end, but of DIFFERENT kinds: not a quoted value, nothing is stripped
+              "'Alice' says \"hello\"", "\"quoted\" isn't", "'x\"", "\"'"]
     for i in range(n):
         name = rng.choice(names)
         value = rng.choice(values)
@@ -401,8 +403,11 @@ def userdata_cases(mon, sc, rng, n):
             text = name
             expect_value = "true"
         # the documented forms are only unambiguous when the value itself is not quote-wrapped / quote-terminated
-        if style in ("plain", "padded", "whole_dq", "whole_sq") and value.strip()[:1] in "\"'" and value.strip()[-1:] in "\"'" and len(value.strip()) > 1:
-            continue
+        v_ = value.strip()
+        if style in ("plain", "padded", "whole_dq", "whole_sq") and v_[:1] in "\"'" and v_[-1:] == v_[:1] and len(v_) > 1:
+            continue        # (wrapped in a PAIR of quotes: the pair would be taken for quoting)
+        if v_[:1] in ("'", '"') and v_[-1:] in ("'", '"') and v_[:1] != v_[-1:] and len(v_) > 1:
+            mon.seen("define_value_shape", "different_quote_characters_at_the_ends")
         if style in ("whole_dq",) and value.endswith('"'):
             continue
         if style in ("whole_sq",) and value.endswith("'"):
